@@ -5,6 +5,8 @@ import (
 	"go/constant"
 	"go/token"
 	"go/types"
+	"sort"
+	"strings"
 
 	"golang.org/x/tools/go/ssa"
 )
@@ -961,4 +963,80 @@ func fieldKnownAt(at ssa.Instruction, track []*types.Var, volatile func(f *types
 	}
 	walk(fn.Blocks[0], 0, know{})
 	return result && reached
+}
+
+// pathStatesAt enumerates, path-sensitively, the boolean facts known when `at` is reached from its function's
+// entry. classify names a branch condition (key) and says which value the key has on the true edge; branches it
+// does not recognise are followed both ways without learning anything. The result is the set of distinct fact
+// maps (one per way of reaching `at`); nil if `at` is unreachable or the walk is cut off.
+func pathStatesAt(at ssa.Instruction, classify func(cond ssa.Value) (key string, whenTrue bool, ok bool)) []map[string]bool {
+	fn := at.Parent()
+	enc := func(k map[string]bool) string {
+		keys := make([]string, 0, len(k))
+		for s, v := range k {
+			keys = append(keys, fmt.Sprintf("%s=%v", s, v))
+		}
+		sort.Strings(keys)
+		return strings.Join(keys, ",")
+	}
+	seen := map[string]bool{}
+	var out []map[string]bool
+	got := map[string]bool{}
+	steps := 0
+	cut := false
+	var walk func(b *ssa.BasicBlock, k map[string]bool)
+	walk = func(b *ssa.BasicBlock, k map[string]bool) {
+		steps++
+		if steps > 50000 {
+			cut = true
+			return
+		}
+		for _, in := range b.Instrs {
+			if in == at {
+				if e := enc(k); !got[e] {
+					got[e] = true
+					out = append(out, k)
+				}
+				return
+			}
+		}
+		ifi, _ := b.Instrs[len(b.Instrs)-1].(*ssa.If)
+		for si, s := range b.Succs {
+			nk := map[string]bool{}
+			for a, v := range k {
+				nk[a] = v
+			}
+			if ifi != nil && b.Succs[0] != b.Succs[1] {
+				cond, neg := ifi.Cond, false
+				for {
+					if u, ok := cond.(*ssa.UnOp); ok && u.Op == token.NOT {
+						cond, neg = u.X, !neg
+						continue
+					}
+					break
+				}
+				if key, whenTrue, ok := classify(cond); ok {
+					v := whenTrue != neg
+					if si == 1 {
+						v = !v
+					}
+					if known, has := k[key]; has && known != v {
+						continue
+					}
+					nk[key] = v
+				}
+			}
+			id := fmt.Sprintf("%d|%s", s.Index, enc(nk))
+			if seen[id] {
+				continue
+			}
+			seen[id] = true
+			walk(s, nk)
+		}
+	}
+	walk(fn.Blocks[0], map[string]bool{})
+	if cut {
+		return nil
+	}
+	return out
 }
